@@ -115,6 +115,9 @@ func (g *Gen) callInstr(v ssa.Value, ins ssa.CallInstruction, st *State, r strin
 	if ci.key == "sort.Slice" && g.sortSlice(cc, st, r) {
 		return
 	}
+	if ci.key == "sort.Search" && g.sortSearch(v, cc, st, r, ins.Pos()) {
+		return
+	}
 	if cc.IsInvoke() {
 		g.safety("nil", r, "(not (= "+g.val(cc.Value).T+" nilif))", "method call on a nil interface value: "+cc.Method.Name(), ins.Pos())
 	}
@@ -767,6 +770,58 @@ func elemPathOf(path func(string) string) string {
 		return "pathid"
 	}
 	return fmt.Sprintf("pbase%d", n)
+}
+
+// sortSearch models sort.Search(n, f) for a closure f under a pure contract: the result r is in [0, n],
+// f(r) holds if r < n and f(r-1) does not hold if r > 0. This is the invariant of the binary search
+// (f(-1) = false, f(n) = true by convention) and holds for every predicate, monotone or not; with a monotone
+// predicate r is the smallest index at which f holds. The two evaluations of f are applications of the
+// closure's contract to the symbolic result.
+func (g *Gen) sortSearch(v ssa.Value, cc *ssa.CallCommon, st *State, r string, pos token.Pos) bool {
+	mc, ok := cc.Args[1].(*ssa.MakeClosure)
+	if !ok {
+		return false
+	}
+	fn, ok := mc.Fn.(*ssa.Function)
+	if !ok || len(fn.Params) != 1 {
+		return false
+	}
+	con, ok := g.prog.specs.Contracts[fnKey(fn)]
+	if !ok || !con.Pure {
+		return false
+	}
+	n := g.val(cc.Args[0]).T
+	res := g.freshConst("search", "Int")
+	g.guardAssume(r, "(and (<= 0 "+res+") (<= "+res+" "+n+"))")
+	ci := &callInfo{fn: fn, key: fnKey(fn), sig: fn.Signature, con: con}
+	for _, p := range fn.Params {
+		ci.formals = append(ci.formals, p.Name())
+	}
+	var binds []Val
+	for i, fv := range fn.FreeVars {
+		ci.formals = append(ci.formals, fv.Name())
+		binds = append(binds, g.val(mc.Bindings[i]))
+	}
+	if len(con.Formals) > 0 {
+		ci.formals = con.Formals
+	}
+	if fn.Pkg != nil {
+		ci.pkg = fn.Pkg.Pkg
+	}
+	intT := fn.Params[0].Type()
+	g1 := g.fresh("sg")
+	g.define(g1, "Bool", "(and "+r+" (< "+res+" "+n+"))")
+	v1 := g.applyCall(ci, st, g1, pos, append([]Val{{T: res, Sort: "Int", GoT: intT}}, binds...))
+	g.guardAssume(g1, v1.T)
+	g2 := g.fresh("sg")
+	g.define(g2, "Bool", "(and "+r+" (> "+res+" 0))")
+	v2 := g.applyCall(ci, st, g2, pos, append([]Val{{T: "(- " + res + " 1)", Sort: "Int", GoT: intT}}, binds...))
+	g.guardAssume(g2, "(not "+v2.T+")")
+	if v != nil {
+		g.vals[v] = Val{T: res, Sort: "Int", GoT: v.Type()}
+	}
+	g.stats.Abstractions["sort.Search-by-closure-contract"]++
+	return true
 }
 
 // sortSlice models sort.Slice(x, less) on a slice value boxed at the call site: afterwards the
